@@ -664,6 +664,9 @@ func runC07(p *core.Prog, r *core.Report, tier string) {
 		r.Hold("C07.l", "best|no-truncation", "", "no 64-bit accessor of an arbitrary-precision amount is used in the best strategies")
 	}
 
+	// ---- (m) one failing node does not take the requests to the others down ----
+	checkNoFailFastContext(p, r, "C07.m", []string{"strategies/"}, "a node that fails fast aborts the requests to the nodes that would have answered")
+
 	// ---- (g) majority threshold ----
 	nThr := 0
 	for _, f := range fns {
